@@ -102,6 +102,14 @@
 	#define HFSM2_BREAK_AVAILABLE()										   false
 #endif
 
+#ifdef HFSM2_VERIF // verification hook (add-only): route HFSM2_BREAK()/HFSM2_ASSERT() to an external handler
+	#undef  HFSM2_BREAK
+	#undef  HFSM2_BREAK_AVAILABLE
+	extern "C" void hfsm2_verif_break();
+	#define HFSM2_BREAK()										hfsm2_verif_break()
+	#define HFSM2_BREAK_AVAILABLE()											true
+#endif
+
 // - - - - - - - - - - - - - - - - - - - - - - - - - - - - - - - - - - - - - - -
 
 #ifdef _DEBUG
